@@ -608,7 +608,7 @@ fc_statements = [
         ],
         f_module=dict(iso_c_binding=["c_f_pointer"]),
         post_call=[
-            "call c_f_pointer({c_var_context}%base_addr, {f_var}{f_array_shape})",
+            "call c_f_pointer({c_var_context}%base_addr,\t {f_var}{f_array_shape})",
         ],
     ),
     dict(
@@ -789,7 +789,7 @@ fc_statements = [
             "{F_pointer} = {F_C_call}({F_arg_c_call})",
         ],
         post_call=[
-            "call c_f_pointer({F_pointer}, {F_result}{f_array_shape})",
+            "call c_f_pointer({F_pointer},\t {F_result}{f_array_shape})",
         ],
     ),
     dict(
@@ -802,7 +802,7 @@ fc_statements = [
             "{F_pointer} = {F_C_call}({F_arg_c_call})",
         ],
         post_call=[
-            "call c_f_pointer({F_pointer}, {F_result}{f_array_shape})",
+            "call c_f_pointer({F_pointer},\t {F_result}{f_array_shape})",
         ],
     ),
 #    dict(
@@ -826,7 +826,7 @@ fc_statements = [
             "{F_pointer} = {F_C_call}({F_arg_c_call})",
         ],
         post_call=[
-            "call c_f_pointer({F_pointer}, {F_result}{f_array_shape})",
+            "call c_f_pointer({F_pointer},\t {F_result}{f_array_shape})",
             "{c_var_capsule}%mem = {c_var_context}%cxx",
         ],
     ),
